@@ -33,6 +33,9 @@
     ],
     'decreases': 'input_size - (size_t)__CPROVER_POINTER_OFFSET(strit)'},
  ],
+ 'native_cxx_probes': [{'file': 'units/C19/native/string_utils_probe.cpp', 'run': True, 'sources': ['igris/string/replace.cpp', 'igris/util/string.cpp', 'igris/string/memmem.c'],
+                        'what': 'real igris::replace / igris::split (not the extraction) against byte-wise references on exact-size buffers',
+                        'bound': 'replace: inputs of length 0..5 x patterns of length 0..3 over {a,b,NUL} x 3 replacements; split: inputs of length 0..6 over {a,space,comma,NUL}: 54602 calls'}],
  'witness': {'unwind': 9},
 } @*/
 #include "c19_harness.h"
